@@ -378,7 +378,7 @@ static void run_reader(ctx_t *c, int fmt, char ty, const char *text, size_t len,
     int st = 0; while (waitpid(pid, &st, 0) < 0 && errno == EINTR) ;
     static char rep[1 << 16]; off_t sz = lseek(g_errfd, 0, SEEK_END); lseek(g_errfd, 0, SEEK_SET);
     ssize_t got = read(g_errfd, rep, sizeof rep - 1 < (size_t)sz ? sizeof rep - 1 : (size_t)sz); if (got < 0) got = 0; rep[got] = 0;
-    int san = strstr(rep, "AddressSanitizer") || strstr(rep, "runtime error:");
+    int san = strstr(rep, "ERROR: AddressSanitizer") || strstr(rep, "AddressSanitizer:DEADLYSIGNAL") || strstr(rep, "runtime error:");
     if (san) { strcpy(status, "memerr"); digest_report(rep, diag, diaglen); fputs(rep, stderr); }
     else if (WIFSIGNALED(st) && WTERMSIG(st) == SIGALRM) strcpy(status, "hang");
     else if (WIFSIGNALED(st) && WTERMSIG(st) == SIGABRT) { strcpy(status, "abort"); digest_report(rep, diag, diaglen); }
@@ -456,9 +456,9 @@ void fam_readers_bad(ctx_t *c) {
         rng_t r; case_rng(c, i, &r); char ty = pick_ty(c, i);
         cmat_t M; gen_case(&r, c, i, ty, &kl, !unsafe, &M);
         int compat = 0;
-        if (M.fmt == RD_MM && M.cplx) compat = 1;       /* the header the pinned [cz]readMM accept; irrelevant for memory safety */
+        if (M.fmt == RD_MM && M.cplx && has_word(ctx_arg(c, "include", ""), "mmcompat")) compat = 1;   /* the header the pinned [cz]readMM accept */
         sb_t s = { 0 };
-        switch (M.fmt) { case RD_HB: case RD_RB: write_hbrb(&r, &M, &s); break; case RD_MM: write_mm(&r, &M, &s, compat && !ctx_argl(c, "stdhdr", 0), 0); break; default: write_tri(&r, &M, &s); }
+        switch (M.fmt) { case RD_HB: case RD_RB: write_hbrb(&r, &M, &s); break; case RD_MM: write_mm(&r, &M, &s, compat, 0); break; default: write_tri(&r, &M, &s); }
         size_t d0 = data_start(&M, s.p, s.n); if (d0 >= s.n) d0 = s.n ? s.n - 1 : 0;
         int fixedfmt = (M.fmt == RD_HB || M.fmt == RD_RB);
         int mut = rng_int(&r, 0, fixedfmt ? 4 : 6); const char *mname = "";
@@ -482,6 +482,7 @@ void fam_readers_bad(ctx_t *c) {
         FILE *f = c->out;
         out_case(f, c->family, i);
         out_p(f, "ty", "%c", ty); out_p(f, "fmt", "%s", fmt_name(M.fmt)); out_p(f, "mut", "%s", mname); out_p(f, "sym", "%d", M.sym);
+        { uint64_t h = 1469598103934665603ULL; for (size_t q = 0; q < s.n; q++) h = (h ^ (unsigned char)s.p[q]) * 1099511628211ULL; out_p(f, "textsum", "%zu:%016llx", s.n, (unsigned long long)h); }
         out_p(f, "status", "%s", status);
         if (diag[0]) fprintf(f, "s diag %s\n", diag);
         if (!strcmp(status, "memerr")) emit_text(f, "text", s.p, s.n);
